@@ -127,17 +127,32 @@ def parseRoots : Nat → List String → Option (List (Node × Faults))
   | _, _ => none
 
 def bytes (s : String) : List Nat := s.toUTF8.toList.map (·.toNat)
+def bytesLt (a b : String) : Bool := ltBytes (bytes a) (bytes b)
+
+def pathStr (p : Path) : String := if p.isEmpty then "." else "/".intercalate p
+
+/-- the Locations a fake extractor reports for package `i` found in file `p`, AFTER `sort.Strings`:
+every fourth package id carries a second, path-dependent location that sorts before ordinary names -/
+def locsOf (i : Nat) (p : Path) : List String :=
+  let ps := pathStr p
+  if i % 4 = 3 then
+    let k := (ps.toUTF8.toList.foldl (fun a b => a + b.toNat) 0) % 7
+    let extra := "00/" ++ String.singleton (Char.ofNat (97 + k))
+    if bytesLt extra ps then [extra, ps] else [ps, extra]
+  else [ps]
 
 def naming : Naming where
   pkgName i := bytes ("n" ++ toString (i / 3))
   pkgVersion i := bytes ("v" ++ toString (i % 3))
   extName e := bytes ("e" ++ toString e)
-  locStr p := bytes ("[" ++ (if p.isEmpty then "." else "/".intercalate p) ++ "]")
+  locStr i p := bytes ("[" ++ " ".intercalate (locsOf i p) ++ "]")
 
 def showErr : Err → String
   | .none => "none" | .maxInodes => "maxinodes" | .ctx => "ctx" | .fs => "fs" | .panic => "panic"
 def showStatus : Status → String
   | .ok => "ok" | .failed => "failed" | .part => "partial"
+/-- id@extractor@<sorted locations, hex, joined by +> -/
+def showPkg (p : Pkg) : String := s!"{p.id}@{p.ext}@{"+".intercalate ((locsOf p.id p.loc).map hexOfStr)}"
 def showCall (c : Call) : String := s!"{c.ext}@{showPath c.path}@{c.size}"
 
 def handle (line : String) : String :=
@@ -172,11 +187,13 @@ def handle (line : String) : String :=
           ext.all (fun x => !x.2.panics)
         let spec := mustExtract c roots
         s!"err={showErr r.err} vis={r.visited} calls={joinWith ";" ((r.calls.filter (·.opened)).map showCall)} " ++
-        s!"pkgs={joinWith ";" (o.pkgs.map fun p => s!"{p.id}@{p.ext}@{showPath p.loc}")} " ++
+        s!"pkgs={joinWith ";" (o.pkgs.map showPkg)} " ++
         s!"st={joinWith "," (o.statuses.map fun (e, st) => s!"{e}={showStatus st}")} " ++
         s!"hyp={boolStr hyp} spec={joinWith ";" ((spec.filter (·.opened)).map showCall)} " ++
         -- the specification's inventory and statuses (theorems C01_inv_spec, C09_surfaced), sorted as sortResults does
-        s!"specpkgs={joinWith ";" ((isort (pkgLt naming) (pkgsOfCalls c spec)).map fun p => s!"{p.id}@{p.ext}@{showPath p.loc}")} " ++
+        s!"specpkgs={joinWith ";" ((isort (pkgLt naming) (pkgsOfCalls c spec)).map showPkg)} " ++
+        s!"fatalhyp={boolStr (c.maxInodes = 0 && c.errorOnFSErrors && !c.cancelBefore && c.cancelAt.isNone && ext.all (fun x => !x.2.panics))} " ++
+        s!"specfatal={boolStr (traversalFaultScan c roots)} " ++
         s!"specst={joinWith "," ((isort (statusLt naming) (roots.flatMap fun (r, f) => (List.range c.nExt).map fun e => (e, statusSpec c f r e))).map fun (e, st) => s!"{e}={showStatus st}")}"
       | none => "bad-op"
     | _, _, _, _, _, _, _ => "bad-op"
